@@ -111,12 +111,17 @@ class C07(Driver):
                 adv.append({"t": fire, "a": "give", "ch": [i, 0], "v": i * 1000 + 1})
                 if r.random() < 0.3:
                     adv.append({"t": fire + r.choice([0, 1, 4]), "a": "close", "ch": [i, 0]})
+                    if st.get("tchan") and r.random() < 0.6:
+                        adv[-1]["xthread"] = 1      # the channel is closed by another thread
             elif kind == "give":
                 adv.append({"t": fire, "a": "take", "ch": [i, 0]})
             elif kind == "select":
                 if end == "other":
                     adv.append({"t": t + dur, "a": "give", "ch": [i, 1], "v": i * 1000 + 501})
                     adv.append({"t": fire, "a": "give", "ch": [i, 0], "v": i * 1000 + 1})
+                    if st.get("tchan") and r.random() < 0.4:
+                        # the channel of the clause that lost is closed from another thread while the victim is elsewhere
+                        adv[-1] = {"t": fire, "a": "close", "ch": [i, 0], "xthread": 1}
                 else:
                     adv.append({"t": fire, "a": "give", "ch": [i, r.choice([0, 1])], "v": i * 1000 + 1})
             elif kind == "selectg":
@@ -301,6 +306,8 @@ class C07(Driver):
             elif k == "take":
                 A("  (sim/ev :ainv %d) (let [[ok v] (protect (ev/take (CH [%d %d])))] (sim/ev :aret %d :take ok v))"
                   % (j, a["ch"][0], a["ch"][1], j))
+            elif k == "close" and a.get("xthread"):
+                A("  (sim/ev :ainv %d) (let [c (CH [%d %d])] (ev/thread (fn [&] (ev/chan-close c)))) (sim/ev :aret %d :close true nil)" % (j, a["ch"][0], a["ch"][1], j))
             elif k == "close":
                 A("  (sim/ev :ainv %d) (ev/chan-close (CH [%d %d])) (sim/ev :aret %d :close true nil)" % (j, a["ch"][0], a["ch"][1], j))
             elif k == "write":
@@ -486,6 +493,14 @@ class C07(Driver):
                     except (ValueError, IndexError):
                         ok = False
                     why = "select result does not name a clause of this select with a value given on it"
+                elif payload.startswith("true (:close ("):
+                    try:
+                        ci, cc = payload[len("true (:close ("):].split(")")[0].split(" ")
+                        ok = int(ci) == i and any(a["a"] == "close" and a["ch"] == [i, int(cc)] and j in ainv and ainv[j].seq < e1.seq
+                                                  for j, a in enumerate(adv))
+                    except (ValueError, IndexError):
+                        ok = False
+                    why = "select reported a closed channel that nobody had closed"
                 else:
                     ok, why = False, "select resumed with an unrelated value"
             elif kind in ("read", "chunk"):
